@@ -17,6 +17,14 @@ package base
 //@   ensures [C11] failnoflag: result.1 != nil ==> !result.2
 //@   modifies frame rulerun
 
+//@ func (*RuleEntity).Execute$1
+//@   props C09 C11
+//@   recoverer
+//@   ensures [C09] converted: panicking ==> err != nil && !returned && res == nil
+//@   ensures unchanged: !panicking ==> err == old(err) && returned == old(returned) && res == old(res)
+//@   modifies res, err, returned
+//@   nopanic
+
 //@ func (*RuleContent).Execute
 //@   props C11 C02 C15
 //@   ensures [C11] failnoflag: result.1 != nil ==> !result.2
